@@ -15,7 +15,8 @@ import AsyncsshModel.Gen.C20
                               connect <host> <port> <early-hex> | needmore | closed
                             host = n (empty) | i<hex> (address bytes) | s<hex> (name)
    perm <kind> <noPF> <cert> <permitopen> <host> <port> <app>
-                            kind dt|tf|ds|sf; noPF 0|1; cert n|y|x (none / permits / does not permit);
+                            kind dt|tf|ds|sf; noPF 0|1; cert n|y|w|x|c|z (none / permit+others / permit only /
+                            other permits only / critical options only / no options at all);
                             permitopen `-` or `,`-joined <hosthex>:<port|*>; answer `<verdict> <appAsked>`
    permitopen <valuehex>    `_add_permitopen`: `<hosthex> <port|*>` or `invalid`
    listen <a|f> <ev>...     listener table: q<hosthex>:<port>:<0|1> (request) c<id> f<id> x<hosthex>:<port> (cancel)
@@ -165,9 +166,12 @@ def stepLine (_ : Unit) (ws : List String) : Unit × String :=
       match parseKind kind, parsePOs po, unhex host, port.toNat? with
       | some kind, some po, some host, some port =>
         let k : KeyOpts := { noPortForwarding := nopf == "1", permitopen := po }
+        -- n no certificate; y permit-port-forwarding + others; w only permit-port-forwarding; x other permits
+        -- only; c critical options only; z no options at all (empty dictionary)
         let c : Option CertOpts :=
-          if cert == "n" then none else some { permitPortForwarding := cert == "y" }
-        let (vd, asked) := decideReq (Gen.C20.checksOf kind) k c { host := host, port := port } (app == "1")
+          if cert == "n" then none
+          else some { permitPortForwarding := cert == "y" || cert == "w", other := cert == "y" || cert == "x" || cert == "c" }
+        let (vd, asked) := decideReq Gen.C20.lookup (Gen.C20.checksOf kind) k c { host := host, port := port } (app == "1")
         showVerdict vd ++ " " ++ (if asked then "1" else "0")
       | _, _, _, _ => "bad-op"
     | ["permitopen", v] =>
